@@ -1,0 +1,9 @@
+//go:build verif
+
+package wallet
+
+// Verification hook (build tag "verif" only): construct the elementsd wallet
+// adapter on top of any RpcClient implementation (a fake elementsd).
+func VerifNewRpcWallet(rpcClient RpcClient, walletName string) *ElementsRpcWallet {
+	return &ElementsRpcWallet{walletName: walletName, rpcClient: rpcClient}
+}
